@@ -346,8 +346,106 @@ def st_typed(draw):
     return {"prog": prog}
 
 
+# ---------------------------------------------------------------- header.add (multi-definition tags)
+
+HVALS = {"i": [5, -7, 0], "f": [2.5, -0.5], "Z": ["abc", "x y"], "A": ["c", "Q"]}
+HBAD = {"i": ["abc", "1x"], "f": ["abc", "1.5.2"], "A": ["abc", ""], "Z": ["a\tb", "a\nb"]}
+
+
+def prop_header_add(case):
+    """header.add(tag, value[, datatype]) is the documented way to assign a further value of a header tag: a value
+    the tag's datatype cannot hold is reported at the call at level 3, at the latest when written at level 2, by
+    validate_field()/validate() at every level; a valid one is never rejected, and all levels write the same."""
+    texts = {}
+    for vlevel in range(4):
+        if case["in_gfa"]:
+            g = gfapy.Gfa(case["start"], vlevel=vlevel)
+            h = g.header
+        else:
+            h = gfapy.Line(case["start"][0], vlevel=vlevel)
+        for step, (tag, dt, vi, bad, explicit) in enumerate(case["prog"]):
+            value = (HBAD if bad else HVALS)[dt][vi % len((HBAD if bad else HVALS)[dt])]
+            args = (tag, value, dt) if explicit else (tag, value)
+            what = "vlevel %d, header %r, step %d: add%r of the program %r" % (vlevel, case["start"], step, args, case["prog"])
+            before = str(h)
+            try:
+                h.add(*args)
+                raised = None
+            except Exception as e:
+                raised = e
+            if not bad:
+                if raised is not None:
+                    raise Violation("valid-add-rejected", "%s raised %s: %s" % (what, type(raised).__name__, str(raised)[:200]), "%s/%s" % (dt, "explicit" if explicit else "default"))
+                try:
+                    h.validate_field(tag)
+                    h.validate()
+                    w = str(h)
+                except Exception as e:
+                    raise Violation("valid-add-rejected", "%s: afterwards validation / writing raised %s: %s" % (what, type(e).__name__, str(e)[:200]), dt)
+                if "# INVALID" in w:
+                    raise Violation("valid-add-marked", "%s: the header is written as %r" % (what, w))
+                continue
+            # an invalid value
+            if raised is not None:
+                if str(h) != before:
+                    raise Violation("refused-add-changed", "%s was refused but the header changed from %r to %r" % (what, before, str(h)))
+                continue
+            if vlevel == 3:
+                raise Violation("invalid-add-accepted", "%s raised nothing" % what, "%s/%s" % (dt, "explicit" if explicit else "default"))
+            try:
+                h.validate_field(tag)
+                raise Violation("invalid-add-validates", "%s: validate_field(%r) does not report it" % (what, tag), dt)
+            except Violation:
+                raise
+            except Exception:
+                pass
+            if vlevel == 2 and not reported_at_write(h, tag):
+                raise Violation("invalid-add-written", "%s: written at level 2 without a report: %r" % (what, str(h)), dt)
+            break
+        else:
+            texts[vlevel] = str(h)
+    if len(set(texts.values())) > 1:
+        raise Violation("levels-disagree", "the same valid header program %r writes different lines: %r" % (case["prog"], texts))
+    return {"nt": len(case["prog"]) >= 2 and any(p[3] for p in case["prog"]) and any(not p[3] for p in case["prog"]),
+            "in_gfa": case["in_gfa"], "explicit_datatype": any(p[4] for p in case["prog"])}
+
+
+@st.composite
+def st_header_add(draw):
+    r = draw(st.randoms(use_true_random=False))
+    tags = {}
+    start_tags = []
+    for t in ["xx", "yy"]:
+        if gen.chance(r, 0.6):
+            dt = gen.choice(r, sorted(HVALS))
+            tags[t] = dt
+            v = gen.choice(r, HVALS[dt])
+            start_tags.append("%s:%s:%s" % (t, dt, v))
+    start = ["H\t" + "\t".join(start_tags)] if start_tags else ["H"]
+    if len(start_tags) == 2 and gen.chance(r, 0.3):
+        start = ["H\t" + start_tags[0], "H\t" + start_tags[1]]
+    in_gfa = gen.chance(r, 0.5) or len(start) > 1
+    prog = []
+    for _ in range(r.randint(1, 5)):
+        t = gen.choice(r, ["xx", "yy", "zz"])
+        bad = gen.chance(r, 0.35)
+        if t in tags:
+            dt = tags[t]
+            explicit = gen.chance(r, 0.3)
+        else:
+            dt = gen.choice(r, sorted(HVALS))
+            # a new tag: the default datatype of the value decides unless a datatype is given; an invalid
+            # value for a new tag only exists with respect to an explicit datatype
+            explicit = bad or dt == "A" or gen.chance(r, 0.3)
+            if not bad:
+                tags[t] = dt
+        prog.append([t, dt, r.randrange(4), bad, explicit])
+    return {"start": start, "in_gfa": in_gfa, "prog": prog}
+
+
 def parts(tier):
     q = tier == "quick"
     return [Part("levels", prop_levels, strategy=st_levels(), n=300 if q else 2000, quick_shards=4),
             Part("assign", prop_assign, strategy=st_assign(), n=2500 if q else 15000, quick_shards=4),
-            Part("typed", prop_typed, strategy=st_typed(), n=600 if q else 4000, quick_shards=2)]
+            Part("typed", prop_typed, strategy=st_typed(), n=600 if q else 4000, quick_shards=2),
+            Part("header-add", prop_header_add, strategy=st_header_add(), n=500 if q else 3000, quick_shards=2)]
